@@ -263,6 +263,17 @@ def prove(pid, extra_targets=(), fact_modules=()):
                             break
                 failed.add(name or f'{f}:{ln}')
         res['failed'] = sorted(failed) or ['<build failed: see log>']
+        # which of the modules still check (their theorems remain discharged; only the axiom audit cannot run)
+        built = []
+        for mod_ in [f'Precis.Props.{pid}'] + list(fact_modules):
+            okm, _ = lake_build([mod_])
+            if okm:
+                built.append(mod_)
+        res['built_modules'] = built
+        still = []
+        for mod_ in built:
+            still += theorems_in(os.path.join(LEAN, *mod_.split('.')) + '.lean')
+        res['still_discharged'] = still
         # the driver may still be buildable even when a theorem is not
         ok2, _ = lake_build(['driver'])
         res['driver_ok'] = ok2
@@ -601,7 +612,7 @@ def finish(ctx, mod, proof, corr, t0, already_reported=False):
     # proof obligations
     proof_broken = bool(proof['failed']) or bool(proof['bad_axioms']) or bool(proof.get('forbidden'))
     n_obl = len(proof['theorems'])
-    n_dis = 0 if not proof['build_ok'] else len([t for t in proof['theorems'] if t in proof['axioms'] and t not in proof['bad_axioms']])
+    n_dis = len(proof.get('still_discharged', [])) if not proof['build_ok'] else len([t for t in proof['theorems'] if t in proof['axioms'] and t not in proof['bad_axioms']])
     known_printed = []
     if corr is not None:
         for kid, cases in corr.known_hits.items():
